@@ -19,7 +19,7 @@ from simkit.core import RunResult, ddmin_list, short_hash
 LEVEL = {"C10": "exploration", "C03": "exploration"}
 TIERS = {"C10": (9000, 150, 300000, 1200), "C03": (5000, 150, 150000, 1200)}
 PROBES = {
-    "C10": ["overlap_batch_hit", "overlap_changed_values", "empty_batch", "revision_only_batch", "single_point_batch",
+    "C10": ["overlap_batch_hit", "overlap_changed_values", "empty_batch", "empty_batch_with_cutoff_inside", "revision_only_batch", "single_point_batch",
             "update_params_false", "refit_equivalence_checked", "no_param_update_checked",
             "update_predict_checked", "update_predict_default_cv", "update_predict_multi_step",
             "update_before_any_fh", "pickle_midway", "ensemble_parallel_update",
@@ -32,7 +32,7 @@ PROBES = {
     "C03": ["gapped_fh", "absolute_fh", "fh_at_fit", "fh_reused_across_cutoffs",
             "predict_after_update", "shifted_twin_checked", "gapped_vs_contiguous_checked",
             "exogenous_data", "stale_batch", "failed_call_injected", "unsorted_fh", "fh_as_index",
-            "labels_after_stale_checked",
+            "labels_after_stale_checked", "empty_batch_with_cutoff_inside",
             "int_index_nonzero_origin", "negative_origin", "composite_depth2",
             "tuned_forecaster", "same_integers_other_kind", "components_reused_elsewhere",
             "frozen_model_same_time_points_checked", "remembered_absolute_horizon_reused",
@@ -124,7 +124,16 @@ def generate(prop, rng, tier):
                     {"kind": "naive", "strategy": rng.choice(["last", "mean", "drift"]), "sp": 1,
                      "window_length": None},
                     {"kind": "trend", "degree": 1, "with_intercept": True}])}
-    abs_stack = prop == "C10" and rng.random() < 0.04
+    if prop == "C03" and rng.random() < 0.04:
+        # an ensemble that learns member weights from every update batch (its update is custom;
+        # only labels, lengths, cutoffs and shift invariance are judged)
+        simple = [{"kind": "naive", "strategy": "last", "sp": 1, "window_length": None},
+                  {"kind": "naive", "strategy": "mean", "sp": 1, "window_length": rng.choice([3, 5])},
+                  {"kind": "trend", "degree": 1, "with_intercept": True},
+                  {"kind": "naive", "strategy": "drift", "sp": 1, "window_length": None}]
+        spec = {"kind": "online", "members": rng.sample(simple, rng.randint(2, 3)),
+                "algo": rng.choice(["nnls", "nnls", None])}
+    abs_stack = rng.random() < 0.04
     if abs_stack:
         # stacking over models that are functions of time alone, fitted with an ABSOLUTE horizon:
         # the same time points stay requested while small updates move the cutoff
@@ -209,6 +218,10 @@ def generate(prop, rng, tier):
         if rng.random() < 0.12:
             ops.append({"op": "stale", "back": rng.randint(2, 6), "len": rng.randint(1, 3),
                         "change": rng.random() < 0.5, "up": rng.random() < 0.4})
+            if rng.random() < 0.4:
+                # ... followed by an update that passes nothing at all
+                ops.append({"op": "update", "take": 0, "overlap": 0, "change": False,
+                            "up": rng.random() < 0.7})
         if rng.random() < 0.12:
             ops.append({"op": "bad_call", "kind": rng.choice(["faulty_cv", "faulty_cv", "insample_X"]),
                         "after": rng.randint(0, 3), "take": rng.choice([6, 8])})
@@ -226,7 +239,7 @@ def generate(prop, rng, tier):
     for o in ops:
         seen_upd = seen_upd or o["op"] == "upd"
         if o["op"] == "update" and o["take"] == 0 and not o.get("revise") and (
-                seen_upd or spec["kind"] in ("ttf", "stack", "ensemble", "mux", "gscv", "theta")):
+                seen_upd or spec["kind"] in ("ttf", "stack", "ensemble", "mux", "gscv", "theta", "online")):
             o["take"] = 1
     exog = False
     if _exog_ok(spec) and rng.random() < 0.35:
@@ -568,8 +581,19 @@ class Engine:
     def op_update(self, i, op):
         up = op["up"]
         fh_known = self.a.fh_steps is not None
-        if op["take"] == 0 and self.a.cut != self.a.pos - 1:
-            return  # an empty batch is only injected while the cutoff is at the end of the data
+        if op["take"] == 0 and not op.get("revise") and self.a.cut != self.a.pos - 1:
+            # an empty batch while the cutoff lies INSIDE the remembered data (after a batch of
+            # older observations): nothing was passed, so the cutoff stays where it is (checked
+            # by check_state after the op); which forecasts follow is not judged in that state
+            if self.stale_state and not self.dead:
+                def do_empty(actor):
+                    b = actor.batch(actor.pos, actor.pos)
+                    return actor.f.update(b, X=actor.xbatch(b), update_params=up)
+                if self.call("update", do_empty) is not None:
+                    self.res.probe("empty_batch_with_cutoff_inside")
+                    self.res.fault("empty_batch")
+                    self.note("update_empty_inside", up)
+            return
 
         def do(actor):
             b, ov = self._update_args(actor, op)
@@ -950,6 +974,10 @@ class Engine:
         up = op["up"]
         a = self.a
         if self.stale_state or (cvs is None and a.fh_steps is None):
+            return
+        if cvs is None and self.spec["kind"] == "online":
+            # (this class documents its own default splitter, which starts with a window; the
+            # default modelled here is the base class's)
             return
         take = op["take"]
         if a.pos + take > len(a.y):
